@@ -481,3 +481,82 @@ _targets_without_label = targets
 
 def targets():      # noqa: F811
     return _targets_without_label() + [target_set_label()]
+
+
+# ------------------------------------------------------------------------------------------------ copies of connections and circuits
+def target_structure_copies():
+    """Connection.__copy__/__deepcopy__, Circuit.__copy__/__deepcopy__, Element.__deepcopy__ on recording stand-ins: a copy is a
+    NEW object of the same class built from the copies of the children, in order, each child copied exactly once; deepcopy passes
+    the SAME memo to every child, registers the copy under id(self) and returns the registered copy when asked again (so a child
+    shared by two parents is copied once and stays shared, and nothing of the original is reachable from the copy)."""
+    from pyvc import overload as O
+    BASE, CIR = "circuit/base", "circuit/circuit"
+
+    def run(sess: Session):
+        class Child:
+            def __init__(self, name):
+                self.name, self.copies, self.deep = name, 0, []
+
+            def __copy__(self):
+                self.copies += 1
+                return ("copy", self.name, self.copies)
+
+            def __deepcopy__(self, memo):
+                self.deep.append(memo)
+                return ("deepcopy", self.name, len(self.deep))
+        for module, cls_name, attr, wrap in ((BASE, "Connection", "_elements", list), (CIR, "Circuit", "_elements", None)):
+            for method in ("__copy__", "__deepcopy__"):
+                ns = {"id": id, "type": type}
+                O.load(module, [f"{cls_name}.{method}"], ns)
+                fn = ns[method]
+                made = []
+
+                class Me:
+                    def __init__(self, arg=None):
+                        made.append((self, arg))
+                kids = [Child("a"), Child("b"), Child("c")] if wrap is list else Child("root")
+                me = Me.__new__(Me)
+                setattr(me, attr, kids)
+                tag = f"{cls_name}.{method}: "
+                if method == "__copy__":
+                    out = fn(me)
+                    ok_new = len(made) == 1 and out is made[0][0] and out is not me and type(out) is Me
+                    sess.check("post", [], z3.BoolVal(ok_new), 0, label=tag + "returns a new object of the same class")
+                    if wrap is list:
+                        want = [("copy", k.name, 1) for k in kids]
+                        sess.check("post", [], z3.BoolVal(ok_new and list(made[0][1]) == want and made[0][1] is not kids), 0, label=tag + "built from the copies of the children, in order, each copied once (a new list)")
+                    else:
+                        sess.check("post", [], z3.BoolVal(ok_new and made[0][1] == ("copy", "root", 1)), 0, label=tag + "built from the copy of the top-level connection")
+                else:
+                    memo = {}
+                    out = fn(me, memo)
+                    ok_new = len(made) == 1 and out is made[0][0] and out is not me
+                    sess.check("post", [], z3.BoolVal(ok_new), 0, label=tag + "returns a new object of the same class")
+                    ks = kids if wrap is list else [kids]
+                    sess.check("post", [], z3.BoolVal(all(len(k.deep) == 1 and k.deep[0] is memo for k in ks)), 0, label=tag + "every child is deep-copied once, with the caller's memo")
+                    sess.check("post", [], z3.BoolVal(memo.get(id(me)) is out), 0, label=tag + "the copy is registered in the memo under id(self)")
+                    again = fn(me, memo)
+                    sess.check("post", [], z3.BoolVal(again is out and len(made) == 1 and all(len(k.deep) == 1 for k in ks)), 0, label=tag + "asked again with the same memo: the registered copy, nothing copied twice")
+        # Element.__deepcopy__: memo discipline around __copy__
+        ns = {"id": id}
+        O.load(BASE, ["Element.__deepcopy__"], ns)
+        fn = ns["__deepcopy__"]
+
+        class E:
+            n = 0
+
+            def __copy__(self):
+                E.n += 1
+                return ("element-copy", E.n)
+        e, memo = E(), {}
+        out = fn(e, memo)
+        sess.check("post", [], z3.BoolVal(out == ("element-copy", 1) and memo.get(id(e)) is out), 0, label="Element.__deepcopy__: the copy made by __copy__ is registered in the memo")
+        sess.check("post", [], z3.BoolVal(fn(e, memo) is out and E.n == 1), 0, label="Element.__deepcopy__: asked again with the same memo: the registered copy")
+    return (f"{BASE}:Connection.__copy__/__deepcopy__, Circuit.__copy__/__deepcopy__", BASE, "Connection.__deepcopy__", run)
+
+
+_targets_without_structure = targets
+
+
+def targets():      # noqa: F811
+    return _targets_without_structure() + [target_structure_copies()]
